@@ -11,7 +11,7 @@ def conn_string(hosts, srv=False):
     if srv: return 'mongodb+srv://' + hosts[0] + '/?ssl=true'
     return 'mongodb://' + ','.join(hosts) + '/?ssl=true&authSource=admin&replicaSet=atlas-abc-shard-0'
 
-def run_cli(world, flags=None, key_via='flags', window=None, out_name='out.log', extra_env=None, project='P1x', cluster='C1x', pre_outs=None, extra_args=None):
+def run_cli(world, flags=None, key_via='flags', window=None, out_name='out.log', extra_env=None, project='P1x', cluster='C1x', pre_outs=None, extra_args=None, tmpdir_form=None, priv=None, pub=None):
     """world: dict for the proxy (see zz_verif_proxy.go). Returns dict with rc, stdout, stderr, requests, tmp listing, outputs."""
     d = tempfile.mkdtemp(prefix='atlas_')
     try:
@@ -26,12 +26,14 @@ def run_cli(world, flags=None, key_via='flags', window=None, out_name='out.log',
             work = os.path.join(d, 'work'); os.mkdir(work)
             for name, data in (pre_outs or {}).items():
                 open(os.path.join(work, name), 'wb').write(data)   # files left by an earlier run with the same --outputFile
-            env = {'PATH': '/usr/bin:/bin', 'HTTPS_PROXY': 'http://127.0.0.1:' + port, 'SSL_CERT_FILE': os.path.join(d, 'ca.pem'), 'TMPDIR': tmp, 'HOME': d}
+            tmp_env = {None: tmp, 'slash': tmp + '/', 'double': tmp.replace('/tmp', '//tmp', 1) if tmp.count('/tmp') else tmp + '//', 'dot': os.path.join(d, '.', 'tmp'), 'dotdot': os.path.join(d, 'work', '..', 'tmp'), 'dotslash': os.path.join(d, 'tmp', '.')}[tmpdir_form]
+            env = {'PATH': '/usr/bin:/bin', 'HTTPS_PROXY': 'http://127.0.0.1:' + port, 'SSL_CERT_FILE': os.path.join(d, 'ca.pem'), 'TMPDIR': tmp_env, 'HOME': d}
+            PRIVK, PUBK = (priv if priv is not None else PRIV), (pub if pub is not None else PUB)
             argv = [CLI, 'redact', '--atlasProjectId', project, '--atlasClusterName', cluster, '-o', out_name] + (flags or [])
-            if key_via in ('flags', 'mixed'): argv += ['--atlasPublicKey', PUB]
-            if key_via == 'flags': argv += ['--atlasPrivateKey', PRIV]
-            if key_via in ('env', 'mixed'): env['ATLAS_PRIVATE_KEY'] = PRIV
-            if key_via == 'env': env['ATLAS_PUBLIC_KEY'] = PUB
+            if key_via in ('flags', 'mixed'): argv += ['--atlasPublicKey=' + PUBK]
+            if key_via == 'flags': argv += ['--atlasPrivateKey=' + PRIVK]
+            if key_via in ('env', 'mixed'): env['ATLAS_PRIVATE_KEY'] = PRIVK
+            if key_via == 'env': env['ATLAS_PUBLIC_KEY'] = PUBK
             if window: argv += ['-s', str(window[0]), '-e', str(window[1])]
             if extra_env: env.update(extra_env)
             if extra_args: argv += extra_args
